@@ -88,6 +88,11 @@ Theorem C11_pinned_terminates_when_flush_size_positive : forall ops m sz sl',
 Proof. exact pinned_code_terminates. Qed.
 Print Assumptions C11_pinned_terminates_when_flush_size_positive.
 
+(* The extracted driver runs a variant that carries the remaining length like the C code; it is the same function. *)
+Theorem C11_fast_run_is_run : forall C ops s, run_f C ops s = run C ops s.
+Proof. exact run_f_eq. Qed.
+Print Assumptions C11_fast_run_is_run.
+
 (* ---- the full statements are false of the pinned tree ---- *)
 
 (* fixed buffer of exactly the reserve: print_ex loops for any number of iterations *)
